@@ -583,6 +583,13 @@ func (w *nodeWriter) writeIndex(n *wNode, rootAndIsAtEnd bool) error {
 		buf = buf[8:]
 	}
 
+	// A resource's tag is the index of its element. If there is a Codec Element
+	// then it is element 0 and the resources start at element 1.
+	tagBase := uint64(0)
+	if n.codec.isLong() {
+		tagBase = 1
+	}
+
 	// DPtr's. We write resources before regular children (non-resources), so
 	// that any TTag that refers to a resource always avoids the [0xC0, 0xFD]
 	// reserved zone. The ratio of resources to regulars is at most 2:1, as
@@ -595,7 +602,7 @@ func (w *nodeWriter) writeIndex(n *wNode, rootAndIsAtEnd bool) error {
 	for i, o := range n.children {
 		tag := uint64(0xFE << 56)
 		if len(o.children) == 0 {
-			tag = resourceToTag(n.resources, o.tertiary)
+			tag = resourceToTag(n.resources, o.tertiary, tagBase)
 		}
 		putU64LE(buf[8*i:], dPtr|tag)
 		dPtr += o.dRangeSize
@@ -628,7 +635,7 @@ func (w *nodeWriter) writeIndex(n *wNode, rootAndIsAtEnd bool) error {
 		} else {
 			cOffsetCLength += w.indexCOffset
 		}
-		putU64LE(buf[8*i:], cOffsetCLength|resourceToTag(n.resources, o.secondary))
+		putU64LE(buf[8*i:], cOffsetCLength|resourceToTag(n.resources, o.secondary, tagBase))
 	}
 	buf = buf[8*len(n.children):]
 
@@ -680,11 +687,11 @@ func calcCLength(primarySize int) uint64 {
 	return uint64(primarySize)
 }
 
-func resourceToTag(resources []int, r OptResource) uint64 {
+func resourceToTag(resources []int, r OptResource, tagBase uint64) uint64 {
 	if r != 0 {
 		for i, res := range resources {
 			if res == int(r) {
-				return uint64(i) << 56
+				return (uint64(i) + tagBase) << 56
 			}
 		}
 	}
